@@ -92,6 +92,8 @@ def make_overlay(name, harness=(), engines=(), rt=False, rewrite_sync=(), extra=
             repl[src] = out
     if extra:
         repl.update(extra)
+    if os.environ.get('VERIF_EXTRA_OVERLAY'):
+        repl.update(json.load(open(os.environ['VERIF_EXTRA_OVERLAY'])))
     path = os.path.join(BUILD, name + '.overlay.json')
     with open(path, 'w') as f:
         json.dump({'Replace': repl}, f, indent=1)
